@@ -534,6 +534,24 @@ def image_ops(kids, rng, dirc=False, path="@IMG@", nreads=3, dev="dd"):
     ops += ["toroot 0 0", "free 0 0", "unmount 0 0", "closedev 0"]
     return ops
 
+def gen_seekread(rng, nops=None):
+    """random seeks and reads through one read-only handle over a file of 3..150 blocks (for fault injection into seeks:
+    the fallback paths of a failing seek must either load the right block or report the failure)"""
+    dostype = rng.randrange(6)
+    dbs = 512 if dostype & 1 else 488
+    ops = prologue(dostype, clock=(2018, 7, 6, 5, 4, 3))
+    nb = rng.choice([3, 5, 8, 40, 74, 80, 146])
+    size = nb * dbs - rng.choice([0, 1, 77])
+    ops += [f"open 1 0 0 {hx(b'side')} 2", "write 1 1500 4", "close 1",
+            f"open 1 0 0 {hx(b'data')} 2", f"write 1 {size} 11", "close 1", f"open 2 0 0 {hx(b'data')} 1"]
+    for _ in range(rng.randint(8, 16)):
+        blk = rng.randrange(nb)
+        off = rng.choice([0, 1, 100, dbs - 1])
+        ops.append(f"seek 2 {min(size, blk * dbs + off)}")
+        ops.append(f"read 2 {rng.choice([50, dbs, 700, 2 * dbs + 5])}")
+    ops += ["stat 2", "close 2"] + epilogue()
+    return ops
+
 def gen_seqread(rng, nops=None):
     """sequential access to a file of more than 72 (or 144) data blocks through one handle (for fault injection)"""
     dostype = rng.randrange(6)
